@@ -213,4 +213,42 @@ example : fShl ⟨⟨5, -3⟩, 10⟩ 7 = .ok ⟨⟨5, 4⟩, 10⟩ := by decide
 example : opDiv 10 .halfAway 2 ⟨1, 0⟩ ⟨3, 0⟩ = .ok ⟨33, -2⟩ := by decide
 example : reprRem 10 .halfAway coarseNone 2 ⟨7, 0⟩ ⟨2, 0⟩ = .ok (⟨-1, 0⟩, none) := by decide
 
+/-! ### the primitive-operand macros of float/src/helper_macros.rs (`impl_binop_with_primitive_one_way`,
+    `impl_binop_with_primitive`, `impl_binop_assign_with_primitive`, `impl_binop_assign_by_taking`), regenerated:
+    every one of the 14 bodies is the float-float operation on `FBig::from(int)` — what the driver computes for the
+    `FN` / `NF` groups (`Driver/FormsMore.fform`: `opBin fam x (fromInt n)` resp. `opBin fam (fromInt n) y`) -/
+
+/-- `FBig::from(n)` for `UBig`, `IBig` and the twelve primitive integer types -/
+def iFrom (B : Nat) : Val → Val | .int n => .fb (fromInt B n) | _ => .bad
+/-- a float-float operation given as a function of the model -/
+def iOp (op : FBigM → FBigM → Val) : Val → Val → Val | .fb a, .fb b => op a b | _, _ => .bad
+
+theorem gen_primitive_forms_are_model (B : Nat) (op : FBigM → FBigM → Val) (x : FBigM) (n : Int) :
+    -- FBig ∘ int, four ownership forms, and the two assign forms
+    Gen.f_impl_binop_with_primitive_one_way_val_val (iFrom B) (iOp op) (.fb x) (.int n) = op x (fromInt B n) ∧
+    Gen.f_impl_binop_with_primitive_one_way_ref_val (iFrom B) (iOp op) (.fb x) (.int n) = op x (fromInt B n) ∧
+    Gen.f_impl_binop_with_primitive_one_way_val_ref (iFrom B) (iOp op) (.fb x) (.int n) = op x (fromInt B n) ∧
+    Gen.f_impl_binop_with_primitive_one_way_ref_ref (iFrom B) (iOp op) (.fb x) (.int n) = op x (fromInt B n) ∧
+    Gen.f_impl_binop_assign_with_primitive_mut_val (iFrom B) (iOp op) (.fb x) (.int n) = op x (fromInt B n) ∧
+    Gen.f_impl_binop_assign_with_primitive_mut_ref (iFrom B) (iOp op) (.fb x) (.int n) = op x (fromInt B n) ∧
+    -- int ∘ FBig, four ownership forms
+    Gen.f_impl_binop_with_primitive_val_val (iFrom B) (iOp op) (.int n) (.fb x) = op (fromInt B n) x ∧
+    Gen.f_impl_binop_with_primitive_ref_val (iFrom B) (iOp op) (.int n) (.fb x) = op (fromInt B n) x ∧
+    Gen.f_impl_binop_with_primitive_val_ref (iFrom B) (iOp op) (.int n) (.fb x) = op (fromInt B n) x ∧
+    Gen.f_impl_binop_with_primitive_ref_ref (iFrom B) (iOp op) (.int n) (.fb x) = op (fromInt B n) x :=
+  ⟨rfl, rfl, rfl, rfl, rfl, rfl, rfl, rfl, rfl, rfl⟩
+
+/-- `x op= y` by taking (`*self = mem::take(self).op(rhs)`): what `x op y` returns -/
+theorem gen_assign_by_taking_is_model (op : FBigM → FBigM → Val) (x y : FBigM) :
+    Gen.f_impl_binop_assign_by_taking_mut_val (iOp op) (.fb x) (.fb y) = op x y ∧
+    Gen.f_impl_binop_assign_by_taking_mut_ref (iOp op) (.fb x) (.fb y) = op x y := ⟨rfl, rfl⟩
+
+/-- precision of `FBig::from(n)`: the digit count of `n` as given (at least 1), value `n` -/
+theorem fromInt_spec (B : Nat) (hB : 2 ≤ B) (n : Int) :
+    (fromInt B n).prec = max (digitsI B n) 1 ∧ (fromInt B n).repr.toRat B = (n : ℚ) := by
+  refine ⟨rfl, ?_⟩
+  unfold fromInt fromParts
+  exact new_int_value B hB n
+
+
 end Dashu.Props.C15GenEuclid
